@@ -106,3 +106,106 @@ reaches its successors, and the path returned is a walk from a source but not th
 		},
 	})
 }
+
+func init() {
+	register(&Rule{
+		ID: "CY", Props: []string{"C19"}, Min: 1,
+		Doc: `"a cycle is always detected (no consensus is built from a cyclic graph)": a ring of k-mers has no source. In pkg/obikmer.(*DeBruijnGraph).HasCycle the loop that starts the depth-first
+searches ranges over the node table of the receiver itself (a field of map type), or over a method of the receiver that ranges over that field and keeps every key (no test in its loop): started
+from Heads() only, a graph that is one cycle — a tandem repeat longer than the read — is declared acyclic and HaviestPath walks it.`,
+		Run: func(c *Ctx, s *Sink) {
+			fd, p := c.FindFunc("pkg/obikmer", "(*DeBruijnGraph).HasCycle")
+			key := "pkg/obikmer.(*DeBruijnGraph).HasCycle:search-started-from-every-node"
+			if fd == nil {
+				s.Undecided(nil, key, 0, "function not found")
+				return
+			}
+			info := p.TypesInfo
+			recv := info.ObjectOf(fd.Recv.List[0].Names[0])
+			isNodeTable := func(e ast.Expr) bool {
+				sel, ok := ast.Unparen(e).(*ast.SelectorExpr)
+				if !ok || rootObj(info, sel.X) != recv {
+					return false
+				}
+				_, isMap := info.TypeOf(sel).Underlying().(*types.Map)
+				return isMap
+			}
+			// the recursive search: a local function value calling itself
+			var dfs types.Object
+			ast.Inspect(fd.Body, func(n ast.Node) bool {
+				if as, ok := n.(*ast.AssignStmt); ok && len(as.Lhs) == 1 && len(as.Rhs) == 1 {
+					if lit, ok := as.Rhs[0].(*ast.FuncLit); ok {
+						o := rootObj(info, as.Lhs[0])
+						self := false
+						ast.Inspect(lit.Body, func(m ast.Node) bool {
+							if call, ok := m.(*ast.CallExpr); ok && rootObj(info, call.Fun) == o {
+								self = true
+							}
+							return true
+						})
+						if self {
+							dfs = o
+						}
+					}
+				}
+				return true
+			})
+			if dfs == nil {
+				s.Undecided(nil, key, fd.Pos(), "no recursive search (a function value calling itself) found")
+				return
+			}
+			var starter *ast.RangeStmt
+			for _, st := range fd.Body.List {
+				if rs, ok := st.(*ast.RangeStmt); ok {
+					calls := false
+					ast.Inspect(rs.Body, func(m ast.Node) bool {
+						if call, ok := m.(*ast.CallExpr); ok && rootObj(info, call.Fun) == dfs {
+							calls = true
+						}
+						return true
+					})
+					if calls {
+						starter = rs
+					}
+				}
+			}
+			if starter == nil {
+				s.Undecided(nil, key, fd.Pos(), "no loop starting the searches found")
+				return
+			}
+			ok := isNodeTable(starter.X)
+			if call, isCall := ast.Unparen(starter.X).(*ast.CallExpr); isCall && !ok {
+				if fn := callee(info, call); fn != nil {
+					if d, dp := c.DeclOf(fn); d != nil && d.Body != nil && d.Recv != nil {
+						di := dp.TypesInfo
+						r2 := di.ObjectOf(d.Recv.List[0].Names[0])
+						ast.Inspect(d.Body, func(m ast.Node) bool {
+							if rs, isR := m.(*ast.RangeStmt); isR {
+								if sel, isS := ast.Unparen(rs.X).(*ast.SelectorExpr); isS && rootObj(di, sel.X) == r2 {
+									if _, isMap := di.TypeOf(sel).Underlying().(*types.Map); isMap {
+										hasIf := false
+										ast.Inspect(rs.Body, func(q ast.Node) bool {
+											if _, isIf := q.(*ast.IfStmt); isIf {
+												hasIf = true
+											}
+											return true
+										})
+										if !hasIf {
+											ok = true
+										}
+									}
+								}
+							}
+							return true
+						})
+					}
+				}
+			}
+			if ok {
+				s.Pass(nil, key, starter.Pos(), "the searches start from every node of the table")
+			} else {
+				s.Fail(nil, key, starter.Pos(), "the depth-first searches start from "+types.ExprString(starter.X)+", not from every node: a component that is one ring has no source — the graph of a read whose first and last k-1 symbols are the same is declared acyclic")
+			}
+		},
+	})
+}
